@@ -128,7 +128,7 @@ CLAIMED = {
    technique="Lean 4 proof (monotone revocation invariant over all histories) + differential correspondence on histories + statement oracle",
    design="§5 C09"),
  "C07": dict(
-   text="Lean 4 theorems over Model/ClientAuth.lean (extract_basic_authorization incl. lenient base64, UTF-8 check, first-colon split and unquote; "
+   text="Lean 4 theorems for the secret-based methods AND the JWT assertion method. JWT assertion (Props/C07Jwt.lean over Model/ClientAssertion.lean, built on the claims model and theorems of C04; state = the documented integrator's jti store): authenticated_implies (signature verified under the key of the client named by sub, iss = sub = that client, audience contains the token endpoint, unexpired within the 60 s leeway, jti fresh, client registered for the method), used_monotone_run, replayed_assertion_never_authenticates (for EVERY later history); correspondence on assertion histories (replays, other jti / client, clock) against the real token endpoint. Secret-based methods: Lean 4 theorems over Model/ClientAuth.lean (extract_basic_authorization incl. lenient base64, UTF-8 check, first-colon split and unquote; "
         "authenticate_client_secret_basic / _post / authenticate_none with their raise-on-unknown-client rules; the ClientAuthentication.authenticate loop with "
         "check_endpoint_auth_method; the 401 rule): authenticated_implies_valid_credentials_and_permitted_method (∀ requests, client tables, method lists, endpoints), "
         "public_client_with_secret_rejected, wrong_secret_rejected, unregistered_method_rejected, exhausted_status (401 + challenge iff Basic permitted), "
